@@ -94,6 +94,8 @@ func rawSort(text string) *Sort {
 		return SIface
 	case "Str":
 		return SStr
+	case "Ref":
+		return SRef // a pointer (object identity), for ghost variables
 	}
 	return &Sort{K: KRaw, Name: text}
 }
